@@ -30,13 +30,13 @@ CLAIMED = {
  },
  "C19": {
   "technique": "Lean 4 theorems: big-endian bodies (regenerated) on a big-endian host = little-endian bodies on a little-endian host",
-  "text": "For all 23 plain and 14 atomic load/store functions AND all 42 read-modify-write + 7 compare-exchange functions (C19Rmw: the mutex-based big-endian bodies, including C's integer promotion of 8/16-bit operands) the body selected under WASM_BIG_ENDIAN, run with big-endian object representation, is proved equal (result and memory image) to the little-endian body; the portable mask/shift swaps equal byte reversal for all inputs. C19Buf: the translator's float-immediate reader (buffer.h, regenerated) yields the little-endian reading on a big-endian host. C19Wasi: every raw (non-accessor) touch of guest memory by the WASI host moves bytes, and its accessor calls are exactly the witx cells, width for width (tables regenerated from wasi.c). The real BE bodies are compiled with forced WASM_BIG_ENDIAN on this host and compared with the model (body=be, host=le) and with the single-reversal expectation.",
+  "text": "For all 23 plain and 14 atomic load/store functions AND all 42 read-modify-write + 7 compare-exchange functions (C19Rmw: the mutex-based big-endian bodies, including C's integer promotion of 8/16-bit operands) the body selected under WASM_BIG_ENDIAN, run with big-endian object representation, is proved equal (result and memory image) to the little-endian body; the portable mask/shift swaps equal byte reversal for all inputs. C19Buf: the translator's float-immediate reader (buffer.h, regenerated) yields the little-endian reading on a big-endian host. C19Wasi: every raw (non-accessor) touch of guest memory by the WASI host moves bytes, and its accessor calls are exactly the witx cells, width for width (tables regenerated from wasi.c). The real BE bodies are compiled with forced WASM_BIG_ENDIAN on this host and compared with the model (body=be, host=le) and with the single-reversal expectation. C19Futex (over Gen/FutexLoads): every guest-memory read of the futex runtime goes through an endian-aware accessor of the demanded width; forced-BE vs LE runs of the real futex runtime.",
   "design_ref": "DESIGN.md §5 C19",
   "note": "No BE host in the image: BE theorems are about the regenerated model; the code runs only in forced-BE-on-LE configuration. Forced-BE builds of the accessors, of the immediate reader and of the WASI host (field-by-field comparison with the LE build) provide the failing-input search.",
  },
  "C07": {
   "technique": "Lean 4 theorems over the literal classifier regenerated from wasmCWriteLiteral + in-process text tie + compile round trip",
-  "text": "For all 2^32/2^64 patterns: integer literals denote the constant; the float classifier (masks regenerated from c.c) selects NaN/inf/-0/finite exactly by IEEE class; NaN (any payload/sign), ±inf and -0 literals denote exactly the given bits; finite floats under the stated assumption that %.9g/%.17g printing plus the compiler's decimal parser round-trip (tested on every run through gcc and clang).",
+  "text": "For all 2^32/2^64 patterns: integer literals denote the constant; the float classifier (masks regenerated from c.c) selects NaN/inf/-0/finite exactly by IEEE class; NaN (any payload/sign), ±inf and -0 literals denote exactly the given bits; finite floats under the stated assumption that %.9g/%.17g printing plus the compiler's decimal parser round-trip (tested on every run through gcc and clang). C07Env.no_locale_change (the list of locale/environment-affecting libc calls of the translator regenerated: none); the constants pipeline is also run under a synthesised comma-decimal locale and with several writer threads.",
   "design_ref": "DESIGN.md §5 C07",
   "note": "Trusted/assumed: DecRoundTrips (glibc printf + gcc/clang literal parsing correctly rounded); C99 typing of hex literals; INFINITY macro.",
  },
@@ -48,13 +48,13 @@ CLAIMED = {
  },
  "C13": {
   "technique": "Lean 4 invariant proofs over the descriptor-table state machine (regenerated constants) + history correspondence with the real wasi.c under ASan/UBSan",
-  "text": "For every history of WASI calls on both ABIs: the descriptor table invariant holds (by induction over histories), closed or never-issued descriptors give EBADF for every implemented call (incl. fd_seek with any whence), descriptor numbers are never reused while open and never alias paths, std streams are preserved, preopens report their registered paths, and no call exhibits the modelled memory-safety UB kinds (double free / NULL deref) from any reachable state. The real code is driven with the same histories.",
+  "text": "For every history of WASI calls on both ABIs: the descriptor table invariant holds (by induction over histories), closed or never-issued descriptors give EBADF for every implemented call (incl. fd_seek with any whence), descriptor numbers are never reused while open and never alias paths, std streams are preserved, preopens report their registered paths, and no call exhibits the modelled memory-safety UB kinds (double free / NULL deref) from any reachable state. The real code is driven with the same histories. native_fds_open_distinct: for every history every native descriptor stored in a live table entry is open and no two entries store the same one (the regenerated flag readdirClosesNativeFd must be false); the harness observes the real table after every call (stale / alias / retarget).",
   "design_ref": "DESIGN.md §5 C13",
   "note": "Trusted: host open/close/fstat as POSIX; tools/extract/gen_wasi.py; the model of the descriptor table is hand-written and tied by the correspondence.",
  },
  "C18": {
   "technique": "Lean 4 linearizability proof of memory.grow over all interleavings of its lock/read/write steps (step list regenerated from w2c2_base.h) + scheduled real-thread correspondence",
-  "text": "The steps of wasmMemoryGrow are regenerated from the header; for ANY number of threads, deltas and interleavings every step list satisfying the decidable lock discipline (which the regenerated list is proved to satisfy) is linearizable: each grow returns the specification's value for some order consistent with real time, final size = initial + sum of successful deltas <= max, old sizes distinct. Real schedules (pthread interposition) are replayed against the model; a TSan run accompanies.",
+  "text": "The steps of wasmMemoryGrow are regenerated from the header; for ANY number of threads, deltas and interleavings every step list satisfying the decidable lock discipline (which the regenerated list is proved to satisfy) is linearizable: each grow returns the specification's value for some order consistent with real time, final size = initial + sum of successful deltas <= max, old sizes distinct. Real schedules (pthread interposition) are replayed against the model; a TSan run accompanies. grow_shared_never_writes_data and grow_zero_fill_inside_critical_section over the regenerated step list; scheduled observer histories (marker in a freshly grown page) and TSan stress on the data field.",
   "design_ref": "DESIGN.md §5 C18",
   "note": "memory.size reads pages without the lock: benign data race, OPEN known finding. Trusted: pthread mutex semantics; realloc/calloc; tools/extract/gen_memfuncs.py.",
  },
@@ -66,13 +66,13 @@ CLAIMED = {
  },
  "C08": {
   "technique": "Lean 4 theorems over the binary reader model (LEB128 decoders and section dispatch with constants regenerated from reader.c/leb128.h) + byte-level correspondence with the real reader on re-encoded modules",
-  "text": "LEB128: for every value and every padded encoding up to the maximal length the regenerated decoders return the value and consume exactly the encoding (unsigned/signed, 32/64), with no UB for any buffer. Reader: custom sections anywhere and padded size fields do not change the decoded module (sections_framing_invariant, no hypothesis on the section readers), absent sections decode as empty, flag-0 and flag-2/memory-0 data segments decode equal (data_flag0_eq_flag2); read_encode_roundtrip / module_roundtrip (Props/C08Sections): EVERY specification encoding of every section kind w2c2 supports — type, import, function, table, memory, global, export, start, element, data-count, code, data, custom, and the name section under -g — is accepted and decoded to the section's abstract content whatever follows; two encodings of the same module are both accepted and give the same module (module_encodings_agree). The real reader's dump is compared with the model on modules re-encoded with minimal/maximal/random LEB widths, custom sections at every boundary, empty vs omitted sections; the real translator's emitted definitions are compared across encodings.",
+  "text": "LEB128: for every value and every padded encoding up to the maximal length the regenerated decoders return the value and consume exactly the encoding (unsigned/signed, 32/64), with no UB for any buffer. Reader: custom sections anywhere and padded size fields do not change the decoded module (sections_framing_invariant, no hypothesis on the section readers), absent sections decode as empty, flag-0 and flag-2/memory-0 data segments decode equal (data_flag0_eq_flag2); read_encode_roundtrip / module_roundtrip (Props/C08Sections): EVERY specification encoding of every section kind w2c2 supports — type, import, function, table, memory, global, export, start, element, data-count, code, data, custom, and the name section under -g — is accepted and decoded to the section's abstract content whatever follows; two encodings of the same module are both accepted and give the same module (module_encodings_agree). The real reader's dump is compared with the model on modules re-encoded with minimal/maximal/random LEB widths, custom sections at every boundary, empty vs omitted sections; the real translator's emitted definitions are compared across encodings. C08Instr (over Gen/Instr: which reader every instruction immediate uses, regenerated from instruction.c/c.c, and the loop of wasmLocalsDeclarationsGetType): instr_immediates_leb (every grammar encoding of an instruction's immediates, any padding, is read back exactly), locals_type_lookup (zero-count groups anywhere, no unsigned wrap), locals_grouping_irrelevant. Ties: in-process immediate/locals harness vs the model, metamorphic re-encodings of every body-level LEB field and of the locals vector through the real translator and V8.",
   "design_ref": "DESIGN.md §5 C08",
   "note": "Explicit decidable hypotheses name what the real reader rejects (constant expressions other than one const/global.get, element forms other than 0, export indices out of range, code count ≠ function count). Function bodies and constant expressions are kept as raw bytes by the reader: their immediates are decoded by the C writer, tied by the encoding-metamorphic runs of the real translator (emit_encoding_independent). Trusted: tools/extract/gen_reader.py; the hand-written reader model (tied by reader-dump).",
  },
  "C10": {
   "technique": "Lean 4 theorems about buffer sizes / UB sites of the reader model + sanitizer (ASan/UBSan, gcc and clang) runs of the real translator on valid modules, all prefixes and the option matrix",
-  "text": "Every sprintf/stringBuilder/file-name buffer is proved large enough for all arguments of its type (integer rows at full strength); the reader model reaches no undefined operation on any byte string except the two sites named in reader_ub_sites, neither of which is reachable from a prefix of a valid module (tested on every prefix, proved for the guarded sites). The real translator, built with sanitizers, is run on generated and spec-suite modules with names of every kind, every option combination and every truncation point.",
+  "text": "Every sprintf/stringBuilder/file-name buffer is proved large enough for all arguments of its type (integer rows at full strength); the reader model reaches no undefined operation on any byte string except the two sites named in reader_ub_sites, neither of which is reachable from a prefix of a valid module (tested on every prefix, proved for the guarded sites). The real translator, built with sanitizers, is run on generated and spec-suite modules with names of every kind, every option combination and every truncation point. C10Array (growth arithmetic of array.c regenerated): ensure_capacity_contract (capacity' >= length, old slots preserved), no_wrap_lp64; C10Writer (loop bounds of the implementation-file writer regenerated). Ties: in-process array harness, -g with large name sections, -r with partially differing references, dead-code families, all under ASan/UBSan.",
   "design_ref": "DESIGN.md §5 C10",
   "note": "translate_no_ub for the emitter is tied by sanitizer runs, not proved; float formatting buffer (sprintf_fits_float_partial) assumes glibc's %.17g length bound. A malformed (non-prefix) file can wrap codeSize (outside the quantifier; modelled as ub codeSizeUnderflow). Trusted: sanitizer completeness for the executed paths; tools/extract/gen_reader.py.",
  },
@@ -84,7 +84,7 @@ CLAIMED = {
  },
  "C15": {
   "technique": "Lean 4 theorems over the args/environ/clock/random/proc/thread-spawn models (strides, tables regenerated from wasi.c) + correspondence with the real wasi.c incl. interposed clocks and forked exits",
-  "text": "args_get/environ_get write exactly the specified pointer and string regions for vectors of any size (pointwise final memory), sizes agree with get; clock ids and ns conversion per table; random_get fills every length < 2^32 (chunk loop); proc_exit status; thread ids distinct and start function run exactly once per successful spawn over any interleaving (invariant over Reach).",
+  "text": "args_get/environ_get write exactly the specified pointer and string regions for vectors of any size (pointwise final memory), sizes agree with get; clock ids and ns conversion per table; random_get fills every length < 2^32 (chunk loop); proc_exit status; thread ids distinct and start function run exactly once per successful spawn over any interleaving (invariant over Reach). clock_id_ignores_precision (the whole switch of clock_time_get regenerated: the host clock is a function of the WASI clock id only), clock_history_monotone_partial, spawn_lookup_exact (the thread entry is the first export named exactly wasi_thread_start). Ties: interposed and bracketed clock histories over all precisions, export-table look-alikes.",
   "design_ref": "DESIGN.md §5 C15",
   "note": "clock_monotonic_partial assumes the host clock; tid counter wrap excluded (stated). Trusted: getentropy/clock_gettime/pthread_create per POSIX; tools/extract/gen_wasipath.py.",
  },
@@ -96,19 +96,19 @@ CLAIMED = {
  },
  "C04": {
   "technique": "Lean 4 module-level simulation (function index space, recursion to any depth, host imports, call_indirect) + element-segment initialisation theorem + emit-tokens / e2e host-trace correspondence",
-  "text": "module_sim_partial: for every module the model translates, every call-depth bound, function index and arguments, if the specification's invocation returns or traps the emitted C does the same — calls pop exactly the callee's parameters in declaration order and push its result (instr_step call/call_indirect), imports first in the index space, call_indirect through initialised, correctly typed slots; elem_init_correct: InitTables leaves in every slot the function of the last covering segment. Tied by emit-tokens (call statements, TF casts, import names) and e2e against V8 with ordered host-call traces (argument bits, instance identity) and table dumps.",
+  "text": "module_sim_partial: for every module the model translates, every call-depth bound, function index and arguments, if the specification's invocation returns or traps the emitted C does the same — calls pop exactly the callee's parameters in declaration order and push its result (instr_step call/call_indirect), imports first in the index space, call_indirect through initialised, correctly typed slots; elem_init_correct: InitTables leaves in every slot the function of the last covering segment. Tied by emit-tokens (call statements, TF casts, import names) and e2e against V8 with ordered host-call traces (argument bits, instance identity) and table dumps. C04Mangle (over Gen/Mangle, the escaping rule regenerated from both copies in c.c): escape_injective, export_symbol_injective, mangle_injective under an explicit hypothesis on the module name, and the counterexample theorem of the recorded open finding (underscores at the module/field boundary); C04Tables (over Gen/InitTables): the InitTables text of either -p mode stores the listed function into slot offset+position (emitted_tables_correct, pretty_same_tokens); C04Child: NewChild runs InitTables on the child. Ties: e2e under -p/-m/-p -m with table dumps, inittables-text, NewChild families (parent/child/independent instances, call_indirect on children) against V8.",
   "design_ref": "DESIGN.md §5 C04, §10",
   "note": "Callees read and write the instance's globals and memory (state-passing); partial: module-level C text (InitTables, struct) is tied behaviourally (table dump), not token by token.",
  },
  "C09": {
   "technique": "Lean 4 proofs of the worker pool (all interleavings, spurious wake-ups), file partition and static/dynamic split + scheduled real w2c2 -t N replay + option-matrix correspondence",
-  "text": "pool_exactly_once / pool_deadlock_free / pool_no_torn_task: the 36-program-counter model of the producer/worker hand-off in c.c delivers every task index exactly once, intact, and never deadlocks, for any number of workers, tasks and any interleaving; partition_exact: file ranges cover [0,n) exactly; split_static_sound. Real `w2c2 -t N` runs under the pthread-interposing scheduler are replayed token by token by the model; the option matrix {-p}x{-m}x{-f}x{-t}x{-r} is checked on real outputs: each function once, texts equal to single-file output, byte-identical across -t and runs, every file compiles alone, selected combinations executed against V8.",
+  "text": "pool_exactly_once / pool_deadlock_free / pool_no_torn_task: the 36-program-counter model of the producer/worker hand-off in c.c delivers every task index exactly once, intact, and never deadlocks, for any number of workers, tasks and any interleaving; partition_exact: file ranges cover [0,n) exactly; split_static_sound. Real `w2c2 -t N` runs under the pthread-interposing scheduler are replayed token by token by the model; the option matrix {-p}x{-m}x{-f}x{-t}x{-r} is checked on real outputs: each function once, texts equal to single-file output, byte-identical across -t and runs, every file compiles alone, selected combinations executed against V8. C09Data: instantiation and what d<k> denotes are the same in every -d mode; C09Split.static_only_if_identical_reference_body for any hash separating the bodies at hand (SHA-1 collision resistance trusted; sha1.c tied to hashlib on every run); C09Threads: workers share no mutable static state (table of written statics regenerated). Ties: TSan build of the translator, -t N byte-identity on constants-heavy multi-file modules, value-carrying br_if families with and without -p.",
   "design_ref": "DESIGN.md §5 C09, §10",
   "note": "Option-independence of the emitted program is tied by the matrix (texts equal modulo formatting), not yet a Lean theorem over Render. OPEN finding: -m collision with an export literally named f<N>. Trusted: pthread semantics as modelled in Model.Pool.",
  },
  "C17": {
   "technique": "Lean 4 invariant proofs over the futex state machine (27 program counters of futex.c, any threads/addresses/bucket counts, spurious wake-ups, timeouts) + scheduled real futex.c correspondence under ASan/UBSan",
-  "text": "futex_inv, no_lost_wakeup, notify_count_exact, wait_returns, futex_no_uaf, futex_deadlock_free, wait_effective_address: by induction over Reach for every interleaving. The real futex.c/list.c/map.c run under the deterministic scheduler on thousands of schedules (incl. colliding buckets, spurious wake-ups, timeouts) and the model replays the executed schedule; the wait/notify emission (static offset) is tied by token comparison and an e2e offset test.",
+  "text": "futex_inv, no_lost_wakeup, notify_count_exact, wait_returns, futex_no_uaf, futex_deadlock_free, wait_effective_address: by induction over Reach for every interleaving. The real futex.c/list.c/map.c run under the deterministic scheduler on thousands of schedules (incl. colliding buckets, spurious wake-ups, timeouts) and the model replays the executed schedule; the wait/notify emission (static offset) is tied by token comparison and an e2e offset test. C17Timeout.cond_deadline_exact: the regenerated timeout arithmetic of wasmCondRelativeWait, run in the C semantics with its C types, yields exactly now + t for every 0 <= t < 2^63 without UB. Ties: interposed clock/cond-wait deadline recording, single-thread wait32/wait64 cases vs V8, linearisation oracle over scheduled histories.",
   "design_ref": "DESIGN.md §5 C17, §10",
   "note": "The doubly linked lists of list.c are abstracted to id lists (tied by the ASan correspondence only). Trusted: pthread mutex/condvar semantics as in Model.Threads.",
  },
@@ -120,7 +120,7 @@ CLAIMED = {
  },
  "C06": {
   "technique": "Lean 4 refinement proof: model of <module>Instantiate (step order and guards regenerated from c.c) refines a declarative instantiation spec + instance-state correspondence with the real output + e2e vs V8",
-  "text": "instantiate_refines_spec: for every module description, resolver and embedder state in which the specification does not trap, the emitted Instantiate (sequence and guards of the Init* calls regenerated from wasmCWriteInstantiateFunction on every run) yields exactly the specified state: imports bound to what the resolver returns, fresh zeroed memories/tables of minimum size, every byte/slot equal to the LAST active segment covering it (any number of overlapping segments; defined or imported objects), globals = their initialisers incl. imported globals, then the start function exactly once (start_once, no_start_no_call); instances_disjoint: operations on one instance leave another instance's own memories/tables/globals unchanged. The model's post-instantiation state is compared with the real instance (memory image, every global, table slots, import bindings) for generated and enumerated module shapes; the real output is run against V8 incl. two interleaved instances.",
+  "text": "instantiate_refines_spec: for every module description, resolver and embedder state in which the specification does not trap, the emitted Instantiate (sequence and guards of the Init* calls regenerated from wasmCWriteInstantiateFunction on every run) yields exactly the specified state: imports bound to what the resolver returns, fresh zeroed memories/tables of minimum size, every byte/slot equal to the LAST active segment covering it (any number of overlapping segments; defined or imported objects), globals = their initialisers incl. imported globals, then the start function exactly once (start_once, no_start_no_call); instances_disjoint: operations on one instance leave another instance's own memories/tables/globals unchanged. The model's post-instantiation state is compared with the real instance (memory image, every global, table slots, import bindings) for generated and enumerated module shapes; the real output is run against V8 incl. two interleaved instances. C06Init (over Gen/InitMem: per-segment logic of InitMemories, blob/array writers and wasmMemoryAllocate regenerated): every active segment gets its LOAD_DATA in order in every -d mode, blob offset = sum of the lengths of ALL earlier segments, d<k> denotes segment k, pages of a new memory = declared minimum also when shared; C06Child (over the regenerated argument of every Init* call of NewChild): the child is in the specified initial state, the parent is unchanged, shared objects are exactly those the code shares. Ties: initmem-text in all four -d modes, gnu-ld blob linked and run, NewChild families and child-state tie.",
   "design_ref": "DESIGN.md §5 C06, §10",
   "note": "Fits hypothesis: segments that do not fit are UB in the generated C (no bounds checks) and trap in the spec — outside the property. The start function is a parameter (its semantics is C03/C04). Export wrappers / symbol names are tied by e2e (link + call), not by a theorem. Trusted: tools/extract/gen_instantiate.py; V8 as reference.",
  },
